@@ -206,7 +206,7 @@ pub fn run(ctx: &Ctx) -> Value {
                     call!("NaiveDateTime.checked_add_days", json!({"dt": ndt(x)}), oo(x.checked_add_days(Days::new(k as u64)), vndt));
                     call!("NaiveDateTime.checked_sub_days", json!({"dt": ndt(x)}), oo(x.checked_sub_days(Days::new(k as u64)), vndt));
                 }
-                call!("NaiveDateTime.with_year", json!({"dt": ndt(x)}), oo(x.with_year(I32X[(round + dn(d) as usize) % 13]), vndt));
+                call!("NaiveDateTime.with_year", json!({"dt": ndt(x)}), { let yy = I32X[(round as i64 + dn(d)).rem_euclid(13) as usize]; oo(x.with_year(yy), vndt) });
                 call!("NaiveDateTime.signed_duration_since", json!({"dt": ndt(x)}), json!({"out": "ok", "v": vdur(x.signed_duration_since(dates[(round + 3) % dates.len()].and_time(times[1])))}));
                 call!("NaiveTime.signed_duration_since", json!({"t": tod(t)}), json!({"out": "ok", "v": vdur(t.signed_duration_since(times[(round + 1) % times.len()]))}));
             }
